@@ -23,7 +23,7 @@ from scipy import special, linalg   # special math functions
 
 # import mpi                          # parallelized computations
 
-from ..core._ext.types import to_cy, LAG, FIELD, \
+from ..core._ext.types import to_cy, NODE, FIELD, \
     INT32TYPE, INT64TYPE
 from ._ext.numerics import _symmetrize_by_absmax, _cross_correlation_max, \
     _cross_correlation_all, _get_nearest_neighbors
@@ -131,7 +131,7 @@ class CouplingAnalysis:
         """
 
         return _symmetrize_by_absmax(to_cy(similarity_matrix, FIELD),
-                                     to_cy(lag_matrix, LAG), self.N)
+                                     to_cy(lag_matrix, NODE), self.N)
 
     #
     #  Define methods to estimate similarity measures
@@ -320,7 +320,7 @@ class CouplingAnalysis:
 
         if lag_mode == 'max':
             similarity_matrix = numpy.ones((N, N), dtype=FIELD)
-            lag_matrix = numpy.zeros((N, N), dtype=LAG)
+            lag_matrix = numpy.zeros((N, N), dtype=NODE)
         elif lag_mode == 'all':
             lagfuncs = numpy.zeros((N, N, tau_max+1), dtype=FIELD)
 
@@ -521,7 +521,7 @@ class CouplingAnalysis:
 
         if lag_mode == 'max':
             similarity_matrix = numpy.ones((N, N), dtype=FIELD)
-            lag_matrix = numpy.zeros((N, N), dtype=LAG)
+            lag_matrix = numpy.zeros((N, N), dtype=NODE)
         elif lag_mode == 'all':
             lagfuncs = numpy.zeros((N, N, tau_max+1), dtype=FIELD)
 
